@@ -45,6 +45,48 @@ struct Registry
 
 inline void sleep_ms(int ms) { ::usleep(ms * 1000); }
 
+// ---- forced schedules (scenarios f_*).  The TSan build calls __tsan_read8/__tsan_write4/... before every instrumented
+// access; the driver is linked with -Wl,--wrap=__tsan_read8,--wrap=__tsan_write4 (definitions in C08_tsan_loop.cc), so a
+// scenario can park the calling thread exactly between two adjacent statements of an operation under test - e.g. between
+// `if (state_ == kConnected)` and `setState(kDisconnecting)` - let the loop thread make its move, and release it.
+// Everything here uses relaxed atomics only (no synchronisation ThreadSanitizer would count as a happens-before edge),
+// and the release comes from a third, plain pthread.
+struct Stall
+{
+  std::atomic<void*> addr;
+  std::atomic<int> write;
+  std::atomic<unsigned long> thread;
+  std::atomic<int> armed, stalled, release;
+};
+extern Stall g_stall;
+// the calling thread will stall at its next instrumented 8-byte read (write=false) / 4-byte write (write=true) of addr
+inline void arm_stall(void* addr, bool write)
+{
+  g_stall.addr.store(addr, std::memory_order_relaxed);
+  g_stall.write.store(write ? 1 : 0, std::memory_order_relaxed);
+  g_stall.thread.store(static_cast<unsigned long>(pthread_self()), std::memory_order_relaxed);
+  g_stall.stalled.store(0, std::memory_order_relaxed);
+  g_stall.release.store(0, std::memory_order_relaxed);
+  g_stall.armed.store(1, std::memory_order_relaxed);
+}
+// a plain thread that waits for the stall, runs `during(arg)` (the other side's move) and releases the stalled thread
+struct StallHelper
+{
+  void (*during)(void*);
+  void* arg;
+  pthread_t th;
+  static void* run(void* p)
+  {
+    StallHelper* h = static_cast<StallHelper*>(p);
+    for (int i = 0; i < 20000 && g_stall.stalled.load(std::memory_order_relaxed) == 0; ++i) ::usleep(200);
+    h->during(h->arg);
+    g_stall.release.store(1, std::memory_order_relaxed);
+    return NULL;
+  }
+  StallHelper(void (*d)(void*), void* a) : during(d), arg(a) { pthread_create(&th, NULL, &StallHelper::run, this); }
+  ~StallHelper() { pthread_join(th, NULL); }
+};
+
 // A loop that lives on its own thread (NOT EventLoopThread, whose destructor is finding F-4): the loop
 // thread constructs the EventLoop, runs `init` on it, publishes the pointer and loops until quit().
 // The loop thread destroys its EventLoop only after the host's quit() call has RETURNED (quitDone_): quit() stores the
